@@ -127,6 +127,9 @@ pub fn c05() -> Result<u64, String> {
         for &o2 in &vals_off { for &l2 in &[1u32, 128] { cases.push(vec![E { id: 5, off: o, len: l, run: 2 }, E { id: 7, off: o2, len: l2, run: 0 }]);
             cases.push(vec![E { id: 5, off: o, len: l, run: 2 }, E { id: 9, off: o.saturating_add(l as u64).min(1 << 62), len: l2, run: u32::MAX }]); } } } }
     for k in 0..400 { let len = [0, 1, 2, 3, 5, 17, 100, 4097][k % 8]; cases.push(gen_dir(&mut r, len, k % 2 == 0)); }
+    // highly regular directories: consecutive ids, contiguous equal-size tiles (compress to far fewer bytes than entries)
+    for &cnt in &[50usize, 200, 1000, 5000, 20000] { for &l in &[1u32, 100, 4096] {
+        cases.push((0..cnt as u64).map(|i| E { id: 3 + i * 2, off: i * l as u64, len: l, run: 1 }).collect()); } }
     for es in &cases {
         let want = dir_enc(es);
         for c in COMPS {
@@ -307,8 +310,11 @@ pub fn c16() -> Result<u64, String> {
         let mut pm = PMTiles::new(TileType::Png, Compression::None); pm.internal_compression = c;
         let mut meta2 = serde_json::Map::new(); meta2.insert("a".into(), "x".into()); meta2.insert("b".into(), 1.into()); pm.meta_data = meta2;
         for (k, v) in tiles.iter().rev() { pm.add_tile(*k, vec![0xFF]).unwrap(); pm.add_tile(*k + 1000, v.clone()).unwrap(); pm.add_tile(*k, v.clone()).unwrap(); pm.remove_tile(*k + 1000); }
+        // the import runs twice for some ids (re-adding the content a tile already has), one id is replaced and restored
+        if round % 2 == 0 { for (k, v) in tiles.iter().take(1 + round % 3) { pm.add_tile(*k, v.clone()).unwrap(); } }
+        if round % 3 == 0 { let (k, v) = tiles.iter().next_back().unwrap(); pm.add_tile(*k, vec![1, 2, 3, 4]).unwrap(); pm.add_tile(*k, v.clone()).unwrap(); pm.add_tile(*k, v.clone()).unwrap(); }
         let b = write_at(pm, 0).map_err(|e| e.to_string())?.0;
-        if a != b { return Err(format!("same logical content, different bytes (insertion order / detour): tiles {:?}, {c:?}", tiles.keys().collect::<Vec<_>>())); }
+        if a != b { return Err(format!("same logical content, different bytes (insertion order / detour / re-added ids): tiles {:?}, {c:?}", tiles.keys().collect::<Vec<_>>())); }
         let c2 = write_at(PMTiles::from_bytes(a.clone()).map_err(|e| e.to_string())?, 0).map_err(|e| e.to_string())?.0;
         if a != c2 { let i = a.iter().zip(&c2).position(|(x, y)| x != y).unwrap_or(a.len().min(c2.len())); return Err(format!("rewriting an archive that was just read back changes byte {i} ({c:?}, {} tiles)", tiles.len())); }
         let mut out = futures::io::Cursor::new(Vec::new());
